@@ -14,6 +14,14 @@ package suites
 //	cap.ackremoval as cap.session, but the generated ACK lines may carry "-name" tokens
 //	               (IRCv3: the server acknowledges that the capability was DISABLED).
 //
+// REQ safety is judged per negotiation round: a name in a CAP REQ must be "on offer", i.e.
+// listed by an LS/NEW line since the last line that concluded a round (ACK or NAK) and not
+// named by a DEL since.  The current code prunes tmpCap on ACK only; a name that is not on
+// offer but was listed since the last ACK (it survived a NAK or a DEL) is reported under the
+// narrow class tmpcap-not-pruned (finding, notes/proposed-fixes/cap-tmpcap-prune.diff); a name
+// that survived an ACK, or was never listed, under req-unadvertised.  After an ACK answered by
+// END or AUTHENTICATE tmpCap must be empty (class tmpcap-not-cleared, through VerifCapState).
+//
 // The oracle keeps two ledgers of "acknowledged and not since deleted": the IRCv3 reading
 // (a "-name" token removes name) and the literal one (every token is a name).  The property
 // is judged against the first; where the implementation differs from it but agrees with the
@@ -415,6 +423,7 @@ func runCapSession(c Case) Result {
 		}
 	}
 	sigs := map[string]bool{}
+	deferred := ""
 
 	// registration burst
 	checkReg := func(reg []string) {
@@ -458,8 +467,10 @@ func runCapSession(c Case) Result {
 		return false
 	}
 	advertised := map[string]bool{}
-	ledger := map[string]bool{}    // acknowledged and not since deleted / disabled (IRCv3 reading)
-	ledgerLit := map[string]bool{} // the same with "-name" read as a capability name
+	offered := map[string]bool{}    // listed since the last ACK/NAK and not deleted since
+	offeredLit := map[string]bool{} // listed since the last ACK (what an unpruned tmpCap explains)
+	ledger := map[string]bool{}     // acknowledged and not since deleted / disabled (IRCv3 reading)
+	ledgerLit := map[string]bool{}  // the same with "-name" read as a capability name
 	lookup := func(l map[string]bool, name string) bool {
 		for t := range l {
 			if asciiLower(t) == asciiLower(name) {
@@ -502,6 +513,8 @@ func runCapSession(c Case) Result {
 			}
 			// a new connection: nothing advertised, nothing acknowledged
 			advertised = map[string]bool{}
+			offered = map[string]bool{}
+			offeredLit = map[string]bool{}
 			ledger = map[string]bool{}
 			ledgerLit = map[string]bool{}
 			reg := s.snapshot()[mark:]
@@ -528,8 +541,14 @@ func runCapSession(c Case) Result {
 			case (sub == "LS" || sub == "NEW") && len(params) >= 3:
 				for _, tok := range strings.Split(last, " ") {
 					advertised[capTokenName(tok)] = true
+					offered[capTokenName(tok)] = true
+					offeredLit[capTokenName(tok)] = true
 				}
+			case sub == "NAK" && len(params) >= 2:
+				offered = map[string]bool{}
 			case sub == "ACK" && len(params) == 3:
+				offered = map[string]bool{}
+				offeredLit = map[string]bool{}
 				for _, tok := range strings.Split(last, " ") {
 					ledgerLit[tok] = true
 					if strings.HasPrefix(tok, "-") {
@@ -542,6 +561,7 @@ func runCapSession(c Case) Result {
 				for _, tok := range strings.Split(last, " ") {
 					delete(ledger, capTokenName(tok))
 					delete(ledgerLit, capTokenName(tok))
+					delete(offered, capTokenName(tok))
 				}
 			}
 		}
@@ -663,14 +683,24 @@ func runCapSession(c Case) Result {
 		if !ended {
 			obs.WriteString(";t=" + HexList(tmp) + ";e=" + HexList(en) + ";g=" + B(tagged))
 		}
+		// ---- oracle: an acknowledged round leaves nothing pending
+		// (internal state: reported only when nothing on the wire fails later in the session)
+		if !ended && !cc.noTracking && sub == "ACK" && len(params) == 3 && len(tmp) != 0 && deferred == "" {
+			deferred = fmt.Sprintf("tmpcap-not-cleared: round %d: tmpCap=%q after the ACK that concluded the round (answered by %v)", k, tmp, outs)
+		}
 
 		// ---- oracle: REQ safety
 		for _, l := range wrote {
 			if strings.HasPrefix(l, "CAP REQ") {
 				rest := strings.TrimPrefix(strings.TrimPrefix(strings.TrimPrefix(l, "CAP REQ"), " "), ":")
 				for _, tok := range strings.Split(rest, " ") {
-					if !advertised[tok] {
+					switch {
+					case !advertised[tok]:
 						fail("req-unadvertised", "round %d requests %q which no LS/NEW of this connection listed", k, tok)
+					case !offered[tok] && !offeredLit[tok]:
+						fail("req-unadvertised", "round %d requests %q which no LS/NEW line of this round listed (it was advertised before an ACK concluded that round)", k, tok)
+					case !offered[tok]:
+						fail("tmpcap-not-pruned", "round %d requests %q which is no longer on offer: its listing was answered by a NAK, or it was deleted since", k, tok)
 					}
 					if !supported(tok) {
 						fail("req-unsupported", "round %d requests %q which the configuration does not support", k, tok)
@@ -754,6 +784,10 @@ func runCapSession(c Case) Result {
 				fail("hascap-disconnected", "HasCapability(%q)=true on a client that is not connected", p)
 			}
 		}
+	}
+
+	if oracle == "" {
+		oracle = deferred
 	}
 
 	keys := make([]string, 0, len(sigs))
@@ -905,6 +939,58 @@ func genCapEvents(r *rand.Rand, removal bool) []string {
 	return evs
 }
 
+// genCapSecondRound: a first round that is acknowledged (with SASL configured and sasl
+// acknowledged the client starts AUTHENTICATE instead of sending CAP END), then the
+// cap-notify traffic of a registered connection: DEL / NEW / LS again, each NEW possibly
+// acknowledged or refused.
+func genCapSecondRound(r *rand.Rand) (string, []string) {
+	bits := Pick(r, "S", "S", "X", "SD", "")
+	var evs []string
+	add := func(params ...string) { evs = append(evs, strings.Join(params, "\n")) }
+	pool := []string{"multi-prefix", "away-notify", "cap-notify", "message-tags", "batch", "server-time", "account-tag", "chghost"}
+	r.Shuffle(len(pool), func(i, j int) { pool[i], pool[j] = pool[j], pool[i] })
+	first := append([]string{}, pool[:1+r.Intn(3)]...)
+	if r.Intn(8) > 0 {
+		first = append(first, Pick(r, "sasl", "sasl=PLAIN,EXTERNAL"))
+	}
+	r.Shuffle(len(first), func(i, j int) { first[i], first[j] = first[j], first[i] })
+	if len(first) > 1 && r.Intn(3) == 0 {
+		add("*", "LS", "*", strings.Join(first[:1], " "))
+		add("*", "LS", strings.Join(first[1:], " "))
+	} else {
+		add("*", "LS", strings.Join(first, " "))
+	}
+	names := make([]string, len(first))
+	for i, f := range first {
+		names[i] = capTokenName(f)
+	}
+	switch r.Intn(8) {
+	case 0:
+		add("me", "NAK", strings.Join(names, " "))
+	default:
+		add("me", "ACK", strings.Join(names, " "))
+	}
+	rest := pool[3:]
+	for n := 1 + r.Intn(3); n > 0; n-- {
+		if r.Intn(2) == 0 {
+			add("me", "DEL", Pick(r, names...))
+		}
+		nw := Pick(r, rest...)
+		if r.Intn(4) == 0 {
+			nw += " " + Pick(r, rest...)
+		}
+		add("me", Pick(r, "NEW", "NEW", "NEW", "LS"), nw)
+		switch r.Intn(4) {
+		case 0:
+			add("me", "NAK", nw)
+		case 1:
+		default:
+			add("me", "ACK", nw)
+		}
+	}
+	return bits, evs
+}
+
 func genCapAckList(r *rand.Rand, advert []string, removal bool) string {
 	var toks []string
 	for _, a := range advert {
@@ -964,6 +1050,10 @@ func capSessionSuite(name string, removal bool, fixed func() []Case) *Suite {
 		Prop:  []string{"C08"},
 		Fixed: fixed,
 		Gen: func(r *rand.Rand) Case {
+			if r.Intn(6) == 0 {
+				bits, evs := genCapSecondRound(r)
+				return append(Case{bits, "", capSessionProbes(evs)}, evs...)
+			}
 			bits, sup := genCapSessionCfg(r)
 			evs := genCapEvents(r, removal)
 			return append(Case{bits, sup, capSessionProbes(evs)}, evs...)
@@ -994,6 +1084,9 @@ func init() {
 			{"T", "", "multi-prefix", ev("*", "LS", "multi-prefix"), ev("me", "ACK", "multi-prefix")},
 			{"", "", "a", ev("me", "ACK", "multi-prefix "), ev("me", "ACK", ""), ev("me", "DEL", "")},
 			{"", "", "multi-prefix", ev("*", "LS", "multi-prefix multi-prefix=x multi-prefix"), ev("me", "ACK", "multi-prefix multi-prefix")},
+			// a second round after the ACK that started authentication (cap-notify): only what the new listing offers
+			{"S", "", "sasl multi-prefix away-notify", ev("*", "LS", "cap-notify multi-prefix sasl"), ev("me", "ACK", "cap-notify multi-prefix sasl"), ev("me", "DEL", "multi-prefix"), ev("me", "NEW", "away-notify"), ev("me", "ACK", "away-notify")},
+			{"X", "", "sasl batch", ev("*", "LS", "*", "sasl=EXTERNAL"), ev("*", "LS", "batch"), ev("me", "ACK", "batch sasl"), ev("me", "NEW", "server-time"), ev("me", "NAK", "server-time"), ev("me", "NEW", "chghost")},
 			// reconnects: nothing advertised or acknowledged on the old connection survives
 			{"", "", "multi-prefix away-notify batch", ev("*", "LS", "*", "multi-prefix"), capReconnect, ev("*", "LS", "away-notify"), ev("me", "ACK", "away-notify"), capReconnect, ev("me", "NEW", "batch"), ev("me", "ACK", "batch")},
 			{"S", "", "sasl message-tags", ev("*", "LS", "sasl message-tags"), ev("me", "ACK", "sasl message-tags"), capReconnect, capReconnect, ev("*", "LS", "")},
